@@ -134,6 +134,17 @@ def parse_cond(src: str) -> Cond:
 
 # --------------------------------------------------------------------------
 # paths
+class CW(tuple):
+    """(condition, wanted truth) with the path position (index into Path.nodes) of the node that established it"""
+
+    pos = None
+
+    def __new__(cls, c, w, pos):
+        o = super().__new__(cls, (c, w))
+        o.pos = pos
+        return o
+
+
 class PathList(list):
     """paths of one function, with the CFG they were enumerated on"""
 
@@ -146,6 +157,13 @@ class Path:
     def __init__(self, conds, nodes, outcome, value, events, marks=None):
         self.conds, self.nodes, self.outcome, self.value, self.events = conds, nodes, outcome, value, events
         self.marks = marks or {}
+
+    def index_of(self, node_id):
+        """position of the first occurrence of the CFG node on this path, or None"""
+        try:
+            return self.nodes.index(node_id)
+        except ValueError:
+            return None
 
     def holds(self, env) -> bool:
         return all(c.ev(env) == want for c, want in self.conds)
@@ -190,7 +208,7 @@ def _reachable_with_noreturn(cfg: CFG, fn_lookup, depth):
 
 
 def enumerate_paths(fn, fn_lookup: Optional[Callable[[ast.Call], Optional[ast.AST]]] = None, expander: Optional[Expander] = None,
-                    max_paths=4000, start_stmt=None, event_filter: Optional[Callable[[ast.Call], Optional[str]]] = None) -> List[Path]:
+                    max_paths=4000, start_stmt=None, event_filter: Optional[Callable[[ast.Call], Optional[str]]] = None, resolve: bool = True) -> List[Path]:
     """all acyclic entry->exit paths of fn (loops are entered at most once).  Outcomes: 'return', 'raise', 'fall' (falls off
     the end).  `events` are labels produced by event_filter for calls passed on the way (e.g. 'warn')."""
     cfg = CFG(fn)
@@ -209,6 +227,8 @@ def enumerate_paths(fn, fn_lookup: Optional[Callable[[ast.Call], Optional[ast.AS
     def resolved(e, nodes_so_far):
         """the test expression with every local replaced by the value it has on THIS path (then single-assignment
         expansion for what is left, e.g. closure variables)"""
+        if not resolve:
+            return e
         try:
             r = value_on_path(_Stub(nodes_so_far), cfg, e, upto=len(nodes_so_far))
         except Exception:
@@ -258,25 +278,25 @@ def enumerate_paths(fn, fn_lookup: Optional[Callable[[ast.Call], Optional[ast.AS
                 atom = Cond("atom", atom=f"raises({ast.unparse(n.stmt)[:50]})" if n.stmt is not None else "raises(?)", pol=True)
                 if b in visited:
                     continue
-                walk(b, conds + [(atom, True)], nodes + [nid], ev, visited | {b}, marks)
+                walk(b, conds + [CW(atom, True, len(nodes))], nodes + [nid], ev, visited | {b}, marks)
                 continue
             if b in visited and cfg.nodes[b].kind == "loop" and nodes.count(b) >= 2:
                 continue
             nc = conds
             if n.kind == "test" and lab in ("true", "false"):
-                nc = conds + [(cond_of(resolved(n.stmt.test, nodes), None), lab == "true")]
+                nc = conds + [CW(cond_of(resolved(n.stmt.test, nodes), None), lab == "true", len(nodes))]
             elif n.kind == "assert" and lab == "assert-fail":
-                nc = conds + [(cond_of(resolved(n.stmt.test, nodes), None), False)]
+                nc = conds + [CW(cond_of(resolved(n.stmt.test, nodes), None), False, len(nodes))]
             elif n.kind == "assert":
-                nc = conds + [(cond_of(resolved(n.stmt.test, nodes), None), True)]
+                nc = conds + [CW(cond_of(resolved(n.stmt.test, nodes), None), True, len(nodes))]
             elif n.kind == "loop" and lab in ("iter", "exhausted") and not second_visit:
                 it = resolved(n.stmt.iter, nodes)
                 nm = f"bool({ast.unparse(it)})" if isinstance(it, (ast.Name, ast.Attribute)) else f"nonempty({ast.unparse(it)})"
-                nc = conds + [(Cond("atom", atom=nm, pol=True), lab == "iter")]
+                nc = conds + [CW(Cond("atom", atom=nm, pol=True), lab == "iter", len(nodes))]
             # statements in a try body: the normal successor means "did not raise"
             if any(l2 == "may-raise" for _, l2 in succs) and lab != "may-raise":
                 atom = Cond("atom", atom=f"raises({ast.unparse(n.stmt)[:50]})" if n.stmt is not None else "raises(?)", pol=True)
-                nc = nc + [(atom, False)]
+                nc = nc + [CW(atom, False, len(nodes))]
             walk(b, nc, nodes + [nid], ev, visited | {b}, marks)
 
     walk(cfg.entry.id, [], [], [], {cfg.entry.id}, {})
@@ -346,8 +366,18 @@ def value_on_path(path: Path, cfg: CFG, expr: ast.AST, upto: Optional[int] = Non
                     if isinstance(t, ast.Name) and t.id == name:
                         return i, st.value
                     if isinstance(t, (ast.Tuple, ast.List)) and any(isinstance(e, ast.Name) and e.id == name for e in t.elts):
-                        if isinstance(st.value, (ast.Tuple, ast.List)) and len(st.value.elts) == len(t.elts):
-                            for e, v in zip(t.elts, st.value.elts):
+                        val = st.value
+                        if isinstance(val, ast.Name):
+                            j, v2 = last_def(val.id, i)
+                            if j is not None and isinstance(v2, (ast.Tuple, ast.List)):
+                                val, i_val = v2, j
+                                if len(val.elts) == len(t.elts):
+                                    for e, v in zip(t.elts, val.elts):
+                                        if isinstance(e, ast.Name) and e.id == name:
+                                            return i_val, v
+                            return i, None
+                        if isinstance(val, (ast.Tuple, ast.List)) and len(val.elts) == len(t.elts):
+                            for e, v in zip(t.elts, val.elts):
                                 if isinstance(e, ast.Name) and e.id == name:
                                     return i, v
                         return i, None
@@ -441,3 +471,138 @@ def atom(text_: str, pol: bool = True) -> Cond:
 
 def any_of(*cs: Cond) -> Cond:
     return Cond("or", list(cs))
+
+
+# --------------------------------------------------------------------------
+# where a value comes from, along one path
+# --------------------------------------------------------------------------
+def origins(path: Path, cfg: CFG, expr: ast.AST, upto: Optional[int] = None, params: Sequence[str] = (), depth: int = 40) -> Set[str]:
+    """leaf sources `expr` derives from on this path before position `upto`:
+    const:<v> | self.<attr> | call:self.<m> | fn:<dotted callee> | open[<mode>]:<resolved path text> | param:<p> |
+    global:<g> | opaque:<n>.  A local object also absorbs the arguments of the methods called on it between its
+    creation and the use (`parser = OFXTree(); parser.parse(src); parser.convert()` derives from src)."""
+    from .source import dotted
+
+    if upto is None:
+        upto = len(path.nodes)
+    out: Set[str] = set()
+    if expr is None or depth <= 0:
+        return out
+
+    def last_binding(name: str, before: int):
+        """(index, kind, node/value) of the last binding of name on the path before `before`"""
+        for i in range(before - 1, -1, -1):
+            n = cfg.nodes[path.nodes[i]]
+            st = n.stmt
+            if st is None or n.kind in ("join", "handlers", "test", "loop"):
+                continue
+            if isinstance(st, ast.Assign) and n.kind == "assign":
+                for t in st.targets:
+                    if isinstance(t, ast.Name) and t.id == name:
+                        return i, "value", st.value
+                    if isinstance(t, (ast.Tuple, ast.List)) and any(isinstance(e, ast.Name) and e.id == name for e in ast.walk(t)):
+                        v = value_on_path(path, cfg, ast.Name(id=name, ctx=ast.Load()), upto=i + 1, depth=1)
+                        if not (isinstance(v, ast.Name) and v.id == name):
+                            # value_on_path found the element; report the position of the element's own statement conservatively
+                            return i, "value", v
+                        return i, "value", st.value
+            elif isinstance(st, ast.AnnAssign) and n.kind == "annassign" and isinstance(st.target, ast.Name) and st.target.id == name and st.value is not None:
+                return i, "value", st.value
+            elif isinstance(st, ast.AugAssign) and isinstance(st.target, ast.Name) and st.target.id == name:
+                return i, "aug", st
+            elif n.kind == "with":
+                for it in getattr(st, "items", []):
+                    if it.optional_vars is not None and any(isinstance(x, ast.Name) and x.id == name for x in ast.walk(it.optional_vars)):
+                        return i, "value", it.context_expr
+            elif n.kind == "looptarget":
+                if any(isinstance(x, ast.Name) and x.id == name for x in ast.walk(st.target)):
+                    return i, "value", st.iter
+            elif n.kind == "except":
+                if getattr(st, "name", None) == name:
+                    return i, "opaque", None
+        return None, None, None
+
+    if isinstance(expr, ast.Constant):
+        return {f"const:{expr.value!r}"}
+    if isinstance(expr, ast.Attribute) and isinstance(expr.value, ast.Name) and expr.value.id == "self":
+        return {f"self.{expr.attr}"}
+    if isinstance(expr, ast.Call):
+        f = expr.func
+        d = dotted(f) or ""
+        if isinstance(f, ast.Attribute) and isinstance(f.value, ast.Name) and f.value.id == "self":
+            # a method of the object itself: a leaf (what it is given is not what it returns)
+            return {f"call:self.{f.attr}"}
+        elif d.split(".")[-1] == "open" and (expr.args or isinstance(f, ast.Attribute)):
+            if isinstance(f, ast.Attribute) and d.split(".")[0] not in ("io", "os", "builtins", "codecs", "gzip"):
+                pth, mode = f.value, (expr.args[0] if expr.args else next((k.value for k in expr.keywords if k.arg == "mode"), None))
+            else:
+                pth, mode = (expr.args[0] if expr.args else None), (expr.args[1] if len(expr.args) > 1 else next((k.value for k in expr.keywords if k.arg == "mode"), None))
+            m = mode.value if isinstance(mode, ast.Constant) else ("r" if mode is None else "?")
+            if pth is not None:
+                out.add(f"open[{m}]:{text(value_on_path(path, cfg, pth, upto=upto))}")
+                out |= origins(path, cfg, pth, upto, params, depth - 1)
+            return out
+        elif isinstance(f, ast.Attribute) and f.attr in ("read_bytes", "read_text") and not expr.args:
+            out.add(f"open[rb]:{text(value_on_path(path, cfg, f.value, upto=upto))}")
+        elif d:
+            out.add(f"fn:{d}")
+        if isinstance(f, ast.Attribute):
+            out |= origins(path, cfg, f.value, upto, params, depth - 1)
+        for a in expr.args:
+            out |= origins(path, cfg, a.value if isinstance(a, ast.Starred) else a, upto, params, depth - 1)
+        for k in expr.keywords:
+            out |= origins(path, cfg, k.value, upto, params, depth - 1)
+        return out
+    if isinstance(expr, ast.Name):
+        i, kind, v = last_binding(expr.id, upto)
+        if i is None:
+            return {f"param:{expr.id}" if expr.id in params else f"global:{expr.id}"}
+        if kind == "opaque" or v is None:
+            return {f"opaque:{expr.id}"}
+        if kind == "aug":
+            return origins(path, cfg, v.value, i, params, depth - 1) | origins(path, cfg, ast.Name(id=expr.id, ctx=ast.Load()), i, params, depth - 1)
+        out |= origins(path, cfg, v, i, params, depth - 1)
+        # the object absorbs what is fed to it through its own methods between creation and use
+        if isinstance(v, ast.Call):
+            for j in range(i + 1, upto):
+                n = cfg.nodes[path.nodes[j]]
+                if n.stmt is None or n.kind in ("join", "handlers"):
+                    continue
+                for c in n.calls():
+                    if isinstance(c.func, ast.Attribute) and isinstance(c.func.value, ast.Name) and c.func.value.id == expr.id:
+                        for a in list(c.args) + [k.value for k in c.keywords]:
+                            out |= origins(path, cfg, a.value if isinstance(a, ast.Starred) else a, j, params, depth - 1)
+        return out
+    if isinstance(expr, ast.Lambda):
+        return out
+    for ch in ast.iter_child_nodes(expr):
+        if isinstance(ch, ast.expr):
+            out |= origins(path, cfg, ch, upto, params, depth - 1)
+    return out
+
+
+def feasible(path: Path, cfg: CFG) -> bool:
+    """False when a plain `<name> is None` condition of the path contradicts the value the name was last assigned on
+    that very path (None literal vs. freshly constructed object).  Only this trivially decidable case is pruned."""
+    for cw in path.conds:
+        pos = getattr(cw, "pos", None)
+        if pos is None:
+            continue
+        for a, want in simple_conds([cw]).items():
+            if not a.endswith(" is None"):
+                continue
+            nm = a[: -len(" is None")]
+            if not nm.isidentifier():
+                continue
+            v = value_on_path(path, cfg, ast.Name(id=nm, ctx=ast.Load()), upto=pos)
+            if isinstance(v, ast.Constant):
+                known = v.value is None
+            elif isinstance(v, (ast.List, ast.Dict, ast.Tuple, ast.Set, ast.JoinedStr, ast.ListComp, ast.DictComp)):
+                known = False
+            elif isinstance(v, ast.Call) and isinstance(v.func, ast.Name) and v.func.id[:1].isupper():
+                known = False
+            else:
+                continue
+            if known != want:
+                return False
+    return True
